@@ -214,6 +214,17 @@ def var_var(shapes):
                 return env, {"a": a, "y": env.y}, {"a": 2.0 * env.vals(env.x) + 1.0, "y": env.vals(env.y)}
             out += _run(f"rsome.lp:Affine.__{opn}__", f"affine{sx} {opn} var{sy}", se,
                         lambda o, f=f: f(o["a"], o["y"]), lambda v, f=f: f(v["a"], v["y"]))
+    # two STORED expressions over the same variable (same sparsity structure): the sum is right and neither operand changes
+    for sx in [s_ for s_ in shapes if int(np.prod(s_)) <= 3]:          # every entry forks on "the two coefficients cancel"
+        for opn, f in (("add", lambda a, b: a + b), ("sub", lambda a, b: a - b)):
+            def se2(c, sx=sx):
+                env = Env(c, sx)
+                ka, kb = env.const(sx, "ka"), env.const(sx, "kb")
+                a = ka * env.x + 1.0
+                b = kb * env.x - 0.5
+                return env, {"a": a, "b": b}, {"a": ka * env.vals(env.x) + 1.0, "b": kb * env.vals(env.x) - 0.5}
+            out += _run(f"rsome.lp:Affine.__{opn}__", f"stored affine{sx} {opn} stored affine over the same variable", se2,
+                        lambda o, f=f: f(o["a"], o["b"]), lambda v, f=f: f(v["a"], v["b"]))
     return out
 
 
@@ -549,6 +560,22 @@ def biaffine(shapes):
         out += _run(R + "__getitem__", f"(x*z+x){sx}[...,1:]", se, lambda o: o["e"][..., 1:], lambda v: v["e"][..., 1:])
         out += _run(R + "__matmul__", f"(x*z+x){sx} @ const.T", se, lambda o: o["e"] @ o["k"].T, lambda v: v["e"] @ v["k"].T)
         out += _run(R + "__rmatmul__", f"const @ (x*z+x){sx}.T", se, lambda o: o["k"] @ o["e"].T, lambda v: v["k"] @ v["e"].T)
+    # a bi-affine expression broadcast against constants / expressions along trailing and inner axes
+    for se_shape, other_shape in (((2, 1), (2, 3)), ((2, 1), (1, 3)), ((3,), (2, 3)), ((1, 3), (2, 1)), ((2, 1, 1), (2, 3))):
+        def se(c, se_shape=se_shape, other_shape=other_shape):
+            env = Env(c, se_shape, other_shape, se_shape)
+            k = env.const(other_shape, "k")
+            a = env.const(se_shape, "a")
+            e = env.x + a * env.z
+            ev = env.vals(env.x) + a * env.vals(env.z)
+            return env, {"e": e, "k": k, "y": env.y}, {"e": ev, "k": k, "y": env.vals(env.y)}
+        R = "rsome.lp:RoAffine."
+        lab = f"(x+a*z){se_shape} with {other_shape}"
+        out += _run(R + "__add__", lab + ": e + const", se, lambda o: o["e"] + o["k"], lambda v: v["e"] + v["k"])
+        out += _run(R + "__add__", lab + ": const - e", se, lambda o: o["k"] - o["e"], lambda v: v["k"] - v["e"])
+        out += _run(R + "__add__", lab + ": e - var", se, lambda o: o["e"] - o["y"], lambda v: v["e"] - v["y"])
+        out += _run(R + "__add__", lab + ": e + (var*const)", se, lambda o: o["e"] + o["y"] * o["k"], lambda v: v["e"] + v["y"] * v["k"])
+        out += _run(R + "__mul__", lab + ": e * const", se, lambda o: o["e"] * o["k"], lambda v: v["e"] * v["k"])
     return out
 
 
@@ -636,7 +663,7 @@ def jobs(tier):
     for i in range(1, len(sh)):
         js.append({"name": f"indexing-{i}", "kind": "indexing", "shapes": [list(sh[i])]})
     js.append({"name": "reshaping", "kind": "reshaping", "shapes": [list(s) for s in sh]})
-    js.append({"name": "triangular", "kind": "triangular", "shapes": [[2, 2], [2, 3], [3, 2], [3], [1, 1]]})
+    js.append({"name": "triangular", "kind": "triangular", "shapes": [[2, 2], [2, 3], [3, 2], [4, 2], [5, 1], [3], [1, 1]]})
     js.append({"name": "stacking", "kind": "stacking"})
     js.append({"name": "methods", "kind": "methods"})
     js.append({"name": "dro-methods", "kind": "methods", "front": "dro"})
